@@ -10,6 +10,7 @@ CONSTANTS
   Probs = {"P1", "P2", "P4"}
   Pads = {0}
   Padfs = {0}
+  Showdups = {FALSE}
 VIEW view
 INVARIANTS Inv_Covered Inv_KeepsCovered Inv_NoTwin Inv_StaleGone Inv_Foreign Inv_Idempotent Inv_Converges Inv_Accounting Inv_FoldAgrees
 CHECK_DEADLOCK FALSE
